@@ -144,6 +144,11 @@ type Client struct {
 
 	// Post resume hook. This will be executed after the client resumes a lost connection using StreamManagement (XEP-0198)
 	PostResumeHook func() error
+
+	// sendMu makes "give the stanza its sequence number, write it" a single step, so that the sequence numbers
+	// of the held stanzas follow the order on the wire, which is the order in which the server counts them.
+	// It is taken before the lock of the queue.
+	sendMu sync.Mutex
 }
 
 /*
@@ -354,6 +359,10 @@ func (c *Client) Send(packet stanza.Packet) error {
 		return errors.New("cannot marshal packet " + err.Error())
 	}
 
+	// The stanza takes its sequence number and goes on the wire before any other sender does either.
+	c.sendMu.Lock()
+	defer c.sendMu.Unlock()
+
 	// Store stanza as non-acked as part of stream management
 	// See https://xmpp.org/extensions/xep-0198.html#scenarios
 	// Without a session (before Connect, after a failed Connect or Resume) there is nothing to hold
@@ -407,6 +416,9 @@ func (c *Client) SendRaw(packet string) error {
 	if conn == nil {
 		return errors.New("client is not connected")
 	}
+	// The stanza takes its sequence number and goes on the wire before any other sender does either.
+	c.sendMu.Lock()
+	defer c.sendMu.Unlock()
 
 	// Store stanza as non-acked as part of stream management
 	// See https://xmpp.org/extensions/xep-0198.html#scenarios
